@@ -185,6 +185,21 @@ func (ex *Exec) doCall(st *State, in ssa.Instruction, c *ssa.CallCommon, fnv Val
 			ex.bindResult(st, res, ex.freshResult(st, "r."+callName(c), rt))
 			return []*State{st}
 		}
+		// uncontracted helper inside /repo without loops: executed as part of the caller (a correct
+		// extract-function refactoring must not raise an alarm, an incorrect helper must fail the caller's clauses)
+		if ci.fn != nil && ci.fn.Blocks != nil && ci.pkg != nil && strings.HasPrefix(ci.pkg.Path(), repoMod) && len(findLoops(ci.fn)) == 0 && ci.fn.Recover == nil {
+			depth := 0
+			for f := st.fr; f != nil; f = f.parent {
+				depth++
+				if f.fn == ci.fn {
+					depth = 99 // recursion
+				}
+			}
+			if depth <= 4 {
+				ex.noteAssumption("uncontracted helper " + shortFuncName(ci.key) + " is inlined into its caller")
+				return ex.inlineClosure(st, in, &Closure{Fn: ci.fn}, args, res)
+			}
+		}
 		// uncontracted: havoc everything
 		ex.noteAssumption("uncontracted call to " + shortFuncName(ci.key) + ": result unconstrained, whole heap havocked, assumed not to panic")
 		st.notes = append(st.notes, "uncontracted call "+shortFuncName(ci.key))
